@@ -90,12 +90,17 @@ def _table(cx, ns, n, kind):
     return rng.integers(0, n, size=(ns, n))
 
 
-def h_boot_export(cx, idl, ns, kind):
+def h_boot_export(cx, idl, ns, kind, order='C'):
+    """order: memory layout of the random-number table the caller supplies ('C' row-major, 'F' column-major, 'T' a transposed view)"""
     lib.sym_env(cx, *MODS)
     name = 'ens|r1'
     o, x, spec = _mk(cx, idl, name)
     n = len(idl)
     t = _table(cx, ns, n, kind)
+    if order == 'F':
+        t = np.asfortranarray(t)
+    elif order == 'T':
+        t = np.ascontiguousarray(t.T).T
     b = o.export_bootstrap(samples=ns, random_numbers=t)
     cx.expect(len(b) == ns + 1, 'boot:length')
     xs = [x[c] for c in idl]
@@ -151,7 +156,7 @@ def h_boot_seed(cx, idl, ns, name):
             cx.prove_eq(b3[s + 1], sum(zs[int(r)] for r in t3[s]) / n3, 'seeded-boot-%s[%d]' % (tag, s + 1))
 
 
-def h_boot_import(cx, n, ns, seed):
+def h_boot_import(cx, n, ns, seed, order='C'):
     """import with a concrete full-column-rank table restores the observable (lstsq = normal equations)"""
     import pyerrors as pe
     lib.sym_env(cx, *MODS)
@@ -166,7 +171,7 @@ def h_boot_import(cx, n, ns, seed):
         if np.linalg.matrix_rank(proj) == n:
             break
     b = o.export_bootstrap(samples=ns, random_numbers=t)
-    o2 = pe.import_bootstrap(b, name, t)
+    o2 = pe.import_bootstrap(b, name, np.asfortranarray(t) if order == 'F' else t)       # the same table, possibly with another memory layout
     lib.compare(cx, o2, spec, 'boot-import')
     # too few samples / wrong shape are rejected
     for bad, why in ((t[:n - 1], 'fewer-samples-than-configs'), (t[:, :n - 1] if ns - 1 != n else t[:-2], 'shape')):
@@ -199,6 +204,8 @@ def jobs(tier, seed):
         add('boot_export', idl=idl, ns=6, kind=seed + 11 + k)
     if tier == 'thorough':
         add('boot_export', idl=[1, 2, 3, 4, 5], ns=5, kind='sym2')
+    add('boot_export', idl=[1, 2, 3, 4, 5], ns=6, kind=seed + 5, order='F')       # tables that are not row-major in memory
+    add('boot_export', idl=[1, 2, 3, 4, 5, 6], ns=4, kind='sym1', order='T')
     add('boot_seed', idl=[1, 2, 3, 4, 5], ns=4, name='ens|r1')
     add('boot_seed', idl=[2, 4, 6, 8, 10, 12], ns=3, name='A653|r003')
     for n, ns in ((5, 5), (5, 8), (6, 9)) + (((7, 12), (8, 16)) if tier == 'thorough' else ()):
